@@ -48,11 +48,14 @@ func drawTaxa(rt *rapid.T, min, max int) int {
 // alphanumeric (2, 10, 1a, 10a: numeric and text order disagree), prefix-heavy (a, aa, aab, ab: names that are prefixes of
 // each other and whose concatenations collide).
 func drawTaxaNames(rt *rapid.T, n int) []string {
+	// a salt makes the names of (nearly) every case new to the process: state memoised per taxon name by an earlier case
+	// must not hide what happens when a name is seen for the first time
+	salt := rapid.IntRange(0, 9999).Draw(rt, "namesalt")
 	switch rapid.IntRange(0, 7).Draw(rt, "naming") {
 	case 6:
 		var out []string
 		for i := 0; i < n; i++ {
-			k := 1 + i*7%23 + (i/23)*23
+			k := 1 + i*7%23 + (i/23)*23 + salt*100
 			switch i % 3 {
 			case 0:
 				out = append(out, strconv.Itoa(k))
@@ -78,9 +81,17 @@ func drawTaxaNames(rt *rapid.T, n int) []string {
 			}
 			out = append(out, w)
 		}
+		if salt%2 == 1 {
+			for i := range out {
+				out[i] = "q" + strconv.Itoa(salt) + out[i]
+			}
+		}
 		return out
 	}
-	return taxa(n, "t")
+	if salt%4 == 0 {
+		return taxa(n, "t")
+	}
+	return taxa(n, "s"+strconv.Itoa(salt)+"t")
 }
 
 func dedupNames(xs []string) []string {
